@@ -21,7 +21,7 @@ import (
 func TestRacePass(t *testing.T) {
 	srv := &dohmem.Server{}
 	dns.VerifRoundTripper = srv
-	srv.Zone = c16.ZoneV0
+	srv.Zone = c16.MultiZone(0)
 	res, _ := ech.NewResolver("https://doh.test/dns-query")
 	var mu sync.Mutex
 	now := time.Unix(1000, 0)
@@ -33,14 +33,14 @@ func TestRacePass(t *testing.T) {
 		go func(g int) {
 			defer wg.Done()
 			for i := 0; i < 200; i++ {
-				name := []string{"n1.example", "n2.example"}[(g+i)%2]
+				name := []string{"n1.example", "n2.example", "n3.example", "n4.example"}[(g+i)%4]
 				r, err := res.Resolve(context.Background(), name)
 				if err != nil {
 					continue
 				}
 				for range r.Targets("tcp") {
 				}
-				if i%50 == 49 {
+				if i%10 == 9 {
 					mu.Lock()
 					now = now.Add(3 * time.Second)
 					mu.Unlock()
